@@ -60,6 +60,11 @@ impl<F: Fn(u64) -> usize> Iterator for FindChangePoints<F> {
             if new_val != self.prev_value {
                 break;
             }
+            // The step cannot be doubled without overflowing: there is no
+            // further change point we can find
+            if step > u64::MAX / 2 {
+                return None;
+            }
             step *= 2;
         }
 
